@@ -259,7 +259,22 @@ class Engine(
                     # There was already another (redundant)
                     # Deduplication upstream.
                     return select
-            case Projection():
+            case Projection(columns=columns):
+                if (
+                    select.has_sort
+                    and not select.sort.columns_required <= columns
+                    and (select.has_deduplication or select.is_compound)
+                ):
+                    # The existing Sort needs columns this Projection drops,
+                    # and it cannot stay in the same SELECT as the Projection
+                    # (the Projection goes outside a DISTINCT subquery or
+                    # inside the UNION operands), so the existing query has to
+                    # become a subquery, which only preserves order if sliced.
+                    if not select.has_slice:
+                        raise RelationalAlgebraError(
+                            f"Applying {operation} to relation {select} will not preserve row order."
+                        )
+                    return Select.apply_skip(select, projection=operation)
                 if select.has_deduplication:
                     # There was a Duplication upstream, so we need to ensure
                     # that is applied before this Projection via a nested
